@@ -36,7 +36,7 @@ let rec take n l = if n <= 0 then [] else match l with [] -> [] | x :: r -> x ::
 
 let eval inp obs =
   match split_on ";" inp with
-  | [num; frames] :: ops ->
+  | (num :: frames :: _) :: ops ->   (* an optional third token selects the harness' DB producer kind *)
     let ops = List.map parse_op (List.filter (fun o -> o <> []) ops) in
     (match init (n_of_tok num) (z_of_tok frames) with
      | None ->
